@@ -95,6 +95,7 @@ pub fn run_diff_src(case: &mut Case, prog: &Program, src: &str, label: &str, opt
         }
         Some(Stop::Unmodelled(m)) => {
             case.count("refsem_unmodelled", 1);
+            stash("refsem", &format!("refsem: {}", msg_class(m)), label, src);
             return Outcome::Inconclusive(format!("refsem: {}", m));
         }
         _ => {}
